@@ -341,6 +341,88 @@ fn engine_layer(rep: &mut Report, args: &Args, rng: &mut Rng) {
   }
 }
 
+/// What mechanism does an endpoint with this configuration announce in its own greeting? (bytes 12..32 of the 64 it
+/// sends once it has seen a ZMTP/3 peer's greeting)
+fn announced_mechanism(cfg: &EngineCfg, server: bool) -> Option<String> {
+  let mut side = Side::new(cfg.engine(server));
+  let o = side.eng.start();
+  let _ = side.absorb(o);
+  let _ = side.feed(&refzmtp::greeting_raw(3, 0, b"NULL", !server));
+  let sent: Vec<u8> = side.sent.iter().flat_map(|b| b.iter().copied()).collect();
+  if sent.len() < 32 {
+    return None;
+  }
+  Some(String::from_utf8_lossy(&sent[12..32]).trim_end_matches('\0').to_string())
+}
+
+/// (partial) option sets that switch a mechanism on without the usual companions - a CURVE secret key with neither
+/// CURVE_SERVER nor a server key, PLAIN credentials without PLAIN_SERVER, NOISE_XX enabled with a secret key but no
+/// pinned remote key - on listeners and connectors, ALLOW_ZMTP2 default / false. Whatever such a socket ANNOUNCES in
+/// its own greeting is what it is configured with: if that is not NULL, no peer may reach the data phase without
+/// completing that very mechanism (same attacker grammar, depth 3).
+fn partial_layer(rep: &mut Report, args: &Args, rng: &mut Rng) {
+  let s = secrets(rng);
+  let b = |v: bool| (v as i32).to_ne_bytes().to_vec();
+  let variants: Vec<(&'static str, Vec<(i32, Vec<u8>)>)> = vec![
+    ("CURVE secret key only", vec![(opt::CURVE_SECRET_KEY, s.curve_srv.0.to_vec())]),
+    ("CURVE secret key + CURVE_SERVER=false", vec![(opt::CURVE_SERVER, b(false)), (opt::CURVE_SECRET_KEY, s.curve_srv.0.to_vec())]),
+    ("PLAIN username+password, no PLAIN_SERVER", vec![(opt::PLAIN_USERNAME, s.user.as_bytes().to_vec()), (opt::PLAIN_PASSWORD, s.pass.as_bytes().to_vec())]),
+    ("PLAIN_SERVER=true, no credentials", vec![(opt::PLAIN_SERVER, b(true))]),
+    ("NOISE_XX enabled + secret key, no remote key", vec![(opt::NOISE_XX_ENABLED, b(true)), (opt::NOISE_XX_STATIC_SECRET_KEY, s.noise_srv.0.to_vec())]),
+  ];
+  let mut idx = 0;
+  for (vname, opts) in &variants {
+    for server in [true, false] {
+      for allow in [None, Some(false)] {
+        for stype in ["PULL", "ROUTER"] {
+          idx += 1;
+          if !args.mine(idx) {
+            continue;
+          }
+          let mut o = opts.clone();
+          if let Some(a) = allow {
+            o.push((opt::ALLOW_ZMTP2, b(a)));
+          }
+          let Ok(cfg) = rzmq::verif::engine_cfg_from_options(stype, &o) else {
+            rep.count("partial_option_sets_refused_by_set_option", 1);
+            continue;
+          };
+          let ann = announced_mechanism(&cfg, server);
+          let cfgname = format!("[{}] {} allow_zmtp2={} type={} (announces {:?})", vname, if server { "listener" } else { "connector" }, allow.map(|a| a.to_string()).unwrap_or("default".into()), stype, ann);
+          rep.cases(1);
+          match ann.as_deref() {
+            None | Some("NULL") | Some("") => {
+              // these options do not switch the mechanism on: nothing to hold the socket to
+              rep.count("partial_option_sets_that_announce_NULL", 1);
+              continue;
+            }
+            Some(_) => rep.count("partial_option_sets_that_announce_a_mechanism", 1),
+          }
+          let mech = ann.clone().unwrap();
+          // a PLAIN connector completes legitimately against a peer that plays PLAIN's server side
+          let dfs_name = if mech == "PLAIN" && !server { format!("Plain connector {}", cfgname) } else { cfgname.clone() };
+          let sigbase = format!("bypass|partial_options|{}|{}", mech, if server { "listener" } else { "connector" });
+          let toks = tokens(rng, stype, &s);
+          let mut stats = (0u64, 0u64);
+          for g in greetings(stype) {
+            let v = play(&cfg, server, &[&g], false);
+            rep.case(&(&cfgname, g.name), true);
+            if let Some(w) = v.breached {
+              rep.violation(format!("{}|greeting={}|last=greeting", sigbase, greeting_class(g.name)), format!("{} reported {} after only a greeting {}", cfgname, w, g.name), json!({"config": cfgname, "greeting": g.name}));
+            }
+            if v.alive {
+              let mut prefix = vec![];
+              dfs(rep, &cfg, server, &dfs_name, &sigbase, &toks, &mut prefix, &g, 3, &mut stats);
+            }
+          }
+          rep.count("scripts_played", stats.0);
+        }
+      }
+    }
+  }
+  rep.sample(json!({"layer": "partial", "option_sets": variants.iter().map(|v| v.0).collect::<Vec<_>>()}));
+}
+
 // ---- stack level -------------------------------------------------------------------------------
 
 async fn secure_socket(ctx: &rzmq::Context, t: SocketType, m: Mech, server: bool, s: &Secrets) -> rzmq::Socket {
@@ -619,6 +701,7 @@ fn main() {
   match args.only.as_deref() {
     Some("stack") => stack_layer(&mut rep, &args, &mut rng),
     Some("creds") => creds_layer(&mut rep, &args, &mut rng),
+    Some("partial") => partial_layer(&mut rep, &args, &mut rng),
     _ => engine_layer(&mut rep, &args, &mut rng),
   }
   // panics inside rzmq while parsing attacker input belong to C07; note them here without verdict
